@@ -15,7 +15,7 @@ func init() {
 		Technique:   "ordering / value-provenance rules (SSA) on config.Transaction.Commit (fresh re-read of the committed configuration, what is applied, what is written back), reachability (static call graph) from the read-only transaction methods to State.Set, who-may-write of the \"config\" state key, key agreement of the revision-config helpers",
 		Explanation: "Structural necessary conditions for 'a configuration transaction commits exactly its own writes on top of the latest committed configuration': (R1) Transaction.Commit re-reads the \"config\" state key into a FRESH map (the decode target is reset first, so nothing of the transaction's old observation survives), applies only the transaction's changes, per snap, to the entry of that snap in the re-read map, and writes that same map back; with no changes nothing is written; (R2) Set/Get/GetMaybe/GetPristine/Changes never write the state, and the \"config\" key is written only in this package (Commit and the per-snap helpers); (R3) the per-revision helpers agree: SaveRevisionConfig, RestoreRevisionConfig and DiscardRevisionConfig use the same state key and index it by (snap name, rev.String()); Restore writes the saved copy to config[snap] only when a copy of that revision exists.",
 		NotDecided:  "read-your-writes and merge semantics over nested dotted paths (PatchConfig / commitChange); external (virtual) configuration; concurrent transactions on the same option.",
-		Run:         func(c *Ctx) { runC29(c); runC29x(c) },
+		Run:         func(c *Ctx) { runC29(c); runC29x(c); runC29z(c) },
 	})
 }
 
